@@ -38,6 +38,8 @@ def compare(c, dump):
         if bases != w["bases"]:
             out.append(("bases", "class %s(%s), supertypes in declaration order are %s" % (w["name"], ",".join(g["bases"]), w["bases"])))
         params = [re.sub(r"^inherited\d+__", "", p) for p in g["params"]]
+        if params == ["args", "kwargs"] and not w["params"]:
+            params = []       # a class without explicit attributes defines no constructor: the base class' (*args, **kwargs) takes none
         if params != w["params"]:
             out.append(("ctor:" + w["name"], "%s.__init__(%s), Part 21 order is %s" % (w["name"], ",".join(params), w["params"])))
     types = {x["name"]: x for x in dump["types"]}
